@@ -818,6 +818,28 @@ fn op_split<M: VolatileMemory>(c: &M, st: &mut St, t: &mut Tape, cx: &mut Cx) ->
         let mut got = vec![0u8; k];
         piece.read_slice(&mut got, 0).map_err(|e| format!("{}: read_slice: {}", name, verr(&e)))?;
         ensure!(got[..] == st.model[po..po + k], "split_at({}) {} reads {}, model {}", m, name, hexs(&got), hexs(&st.model[po..po + k]));
+        {
+            // the piece converted into a byte array (From<VolatileSlice> for VolatileArrayRef<u8>)
+            let arr: vm_memory::VolatileArrayRef<'_, u8, _> = piece.clone().into();
+            ensure!(arr.len() == pl, "{}: VolatileArrayRef::from(slice).len() = {}, the slice has {} bytes", name, arr.len(), pl);
+            ensure!(arr.ptr_guard().len() == pl && arr.ptr_guard_mut().len() == pl, "{}: VolatileArrayRef::from(slice): guard of {} bytes for {} bytes", name, arr.ptr_guard().len(), pl);
+            let mut got = vec![0u8; k];
+            let n = arr.copy_to(&mut got);
+            ensure!(n == k && got[..] == st.model[po..po + k], "{}: VolatileArrayRef::from(slice).copy_to moved {} bytes and reads {}, model {}", name, n, hexs(&got), hexs(&st.model[po..po + k]));
+            if k > 0 {
+                let i = t.idx(pl);
+                ensure!(arr.load(i) == st.model[po + i], "{}: VolatileArrayRef::from(slice).load({}) = {:#x}, model {:#x}", name, i, arr.load(i), st.model[po + i]);
+                if t.flag() {
+                    let v = t.bytes(1);
+                    arr.store(i, v[0]);
+                    st.wr(po + i, &v, 9);
+                    let back = arr.to_slice();
+                    let mut one = [0u8; 1];
+                    back.read_slice(&mut one, i).map_err(|e| format!("{}: array.to_slice().read_slice: {}", name, verr(&e)))?;
+                    ensure!(one[0] == v[0], "{}: VolatileArrayRef::from(slice).to_slice() reads {:#x} at {} after store({:#x})", name, one[0], i, v[0]);
+                }
+            }
+        }
         if k > 0 && t.flag() {
             // a further derivation, then a write through it
             let o2 = t.idx(pl);
@@ -993,7 +1015,7 @@ fn run_xen(_t: &mut Tape, _cx: &mut Cx) -> Result<(), String> {
 pub fn property() -> Property {
     Property {
         id: "C04",
-        rule: "a case = one container (VolatileSlice of 0..96 bytes at any base alignment mod 16 inside a canary frame, or an MmapRegion of 1 byte..2 pages +- odd, addressed as a slice and through the byte-access interface of the guest region around it; xen build: emulated Unix / foreign / grant regions incl. regions mapped on demand, judged through the device file) + a history of 1..30 operations over every accessor kind (Bytes write/read/write_slice/read_slice/write_obj/read_obj/store/load, get_ref store/load/to_slice, get_array_ref load/store/ref_at/copy_to/copy_from/copy_to_volatile_slice (inside the container, to and from memory outside it)/to_slice, aligned_as_ref/aligned_as_mut/get_atomic_ref (granted iff fitting and aligned), slice copy_to/copy_from for 11 element types, slice-to-slice copies incl. overlapping, split_at / offset / subslice of a slice of the container) with offsets inside/touching/crossing the end and buffer lengths around 7..9 and around the remaining length; model compared with the raw memory and the frame after every step; non-trivial = op touches or crosses the container end, length in 7..=9, buffer length != container length, overlapping copy, refused atomic, or a read through a route different from the one that wrote the bytes; distinct = decoded (container, history)",
+        rule: "a case = one container (VolatileSlice of 0..96 bytes at any base alignment mod 16 inside a canary frame, or an MmapRegion of 1 byte..2 pages +- odd, addressed as a slice and through the byte-access interface of the guest region around it; xen build: emulated Unix / foreign / grant regions incl. regions mapped on demand, judged through the device file) + a history of 1..30 operations over every accessor kind (Bytes write/read/write_slice/read_slice/write_obj/read_obj/store/load, get_ref store/load/to_slice, get_array_ref load/store/ref_at/copy_to/copy_from/copy_to_volatile_slice (inside the container, to and from memory outside it)/to_slice, aligned_as_ref/aligned_as_mut/get_atomic_ref (granted iff fitting and aligned), slice copy_to/copy_from for 11 element types, slice-to-slice copies incl. overlapping, split_at / offset / subslice of a slice of the container, a slice converted into a byte array with From) with offsets inside/touching/crossing the end and buffer lengths around 7..9 and around the remaining length; model compared with the raw memory and the frame after every step; non-trivial = op touches or crosses the container end, length in 7..=9, buffer length != container length, overlapping copy, refused atomic, or a read through a route different from the one that wrote the bytes; distinct = decoded (container, history)",
         assumptions: &["values are encoded with to_ne/le/be_bytes, not through ByteValued::as_slice", "zero-sized element types are C18's business"],
         subchecks: vec![
             SubCheck { name: "slice", builds: &[Build::Std], kind: Kind::Random { quick: 60_000, thorough: 3_000_000, max_words: 260 }, run: run_slice },
